@@ -5,6 +5,7 @@
 -/
 import Minicbor.Narrow
 import Minicbor.Lemmas.FloatWiden
+import Minicbor.Lemmas.NarrowRne
 
 namespace Minicbor.NarrowThm
 open Minicbor
@@ -179,5 +180,118 @@ example : f64ToF32 0x3FF0000000000000 = 0x3F800000 ∧ f64ToF32 0x7FEFFFFFFFFFFF
     f64ToF32 0x3FF0000010000000 = 0x3F800000 ∧ f64ToF32 0x3FF0000030000000 = 0x3F800002 ∧
     f64ToF32 0x36A0000000000000 = 0x00000001 ∧ f64ToF32 0x3690000000000000 = 0 ∧ f64ToF32 0x7FF0000000000001 = 0x7FC00000 := by
   refine ⟨by decide, by decide, by decide, by decide, by decide, by decide, by decide⟩
+
+/-! ## `f64 as f32` rounds to nearest, ties to even — every finite binary64 input -/
+
+theorem f64ToF32_rnd (s e m : Nat) (hs : s < 2) (he : e < 2047) (hm : m < 4503599627370496) :
+    f64ToF32 (s * 9223372036854775808 + e * 4503599627370496 + m) = s * 2147483648 + rnd32 e m := by
+  rw [f64ToF32_mk s e m hs (by omega) hm]
+  have h1 : ¬ (e = 2047) := by omega
+  rw [if_neg h1]
+  unfold rnd32
+  simp only []
+  generalize (if e = 0 then 1 else e) = E
+  generalize (if e = 0 then m else 4503599627370496 + m) = M
+  by_cases hn : E ≥ 897
+  · rw [if_pos hn, if_pos hn]
+    by_cases hb : (E - 896) * 8388608 + (rneShift M 29 - 8388608) ≥ 0x7F800000
+    · rw [if_pos hb, if_pos hb]
+    · rw [if_neg hb, if_neg hb]
+  · rw [if_neg hn, if_neg hn]
+
+/-- in fields. -/
+theorem narrow_rne_fields (s e m : Nat) (hs : s < 2) (he : e < 2047) (hm : m < 4503599627370496) :
+    ∃ neg a, val64 (s * 9223372036854775808 + e * 4503599627370496 + m) = .finite neg a ∧
+      (ovf32 ≤ a → val32 (f64ToF32 (s * 9223372036854775808 + e * 4503599627370496 + m)) = .inf neg) ∧
+      (a < ovf32 → ∃ b,
+        val32 (f64ToF32 (s * 9223372036854775808 + e * 4503599627370496 + m)) = .finite neg b ∧
+        ∀ y, y < 4294967296 → ∀ n' b', val32 y = .finite n' b' →
+          fdist neg b neg a ≤ fdist n' b' neg a ∧
+          (fdist neg b neg a = fdist n' b' neg a →
+            y ≠ f64ToF32 (s * 9223372036854775808 + e * 4503599627370496 + m) →
+            f64ToF32 (s * 9223372036854775808 + e * 4503599627370496 + m) % 2 = 0)) := by
+  obtain ⟨hle, hov, hfin⟩ := narrow_rne_mag e m he hm
+  refine ⟨s == 1, mag64f e m, val64_finite s e m hs he hm, ?_, ?_⟩
+  · intro hge
+    rw [f64ToF32_rnd s e m hs he hm, hov hge]
+    exact val32_infinite s hs
+  · intro hlt
+    obtain ⟨hR, hnear⟩ := hfin hlt
+    rw [f64ToF32_rnd s e m hs he hm]
+    refine ⟨mag32 (rnd32 e m), val32_of_mag s (rnd32 e m) hs (by omega), ?_⟩
+    intro y hy n' b' hv
+    obtain ⟨hH, hn, hb⟩ := val32_finite_inv y hy n' b' hv
+    rw [hn, hb]
+    clear hv hn hb
+    have hsplit : y = (y / 2147483648) * 2147483648 + y % 2147483648 := by omega
+    have hs' : y / 2147483648 < 2 := by omega
+    generalize y / 2147483648 = s' at *
+    generalize y % 2147483648 = H' at *
+    obtain ⟨n1, n2⟩ := hnear H'
+    unfold fdist
+    simp only [if_true]
+    by_cases hsame : (s' == 1) = (s == 1)
+    · have hss : s' = s := by
+        have a : s = 0 ∨ s = 1 := by omega
+        have b : s' = 0 ∨ s' = 1 := by omega
+        rcases a with rfl | rfl <;> rcases b with rfl | rfl <;> simp at hsame <;> rfl
+      simp only [hsame, if_true]
+      refine ⟨n1, fun heq hne => ?_⟩
+      have h2 := n2 heq (by omega)
+      omega
+    · simp only [hsame, if_false]
+      have z := (hnear 0).1
+      have z2 := (hnear 0).2
+      have e0 : mag32 0 = 0 := by
+        have := mag32_small 0 (by omega)
+        simpa using this
+      rw [e0] at z z2
+      have hz : ndist 0 (mag64f e m) = mag64f e m := by unfold ndist; omega
+      rw [hz] at z z2
+      constructor
+      · omega
+      · intro heq _
+        have hb0 : ndist (mag32 (rnd32 e m)) (mag64f e m) = mag64f e m := by omega
+        by_cases hr0 : rnd32 e m = 0
+        · omega
+        · have := z2 hb0 (fun h => hr0 h.symm)
+          omega
+
+/-- **`f64 as f32` (serde's `f32` visitor on a buffered double) rounds to nearest, ties to even** — all
+    2^64 − 2^53 finite binary64 inputs.  With `a` the exact magnitude of the input (units of 2^-1074): at or
+    above `ovf32` = (2^25 − 1)·2^103 the result is the infinity of the same sign; below it the result is a
+    finite binary32 `b` of the same sign such that no binary32 value — of either sign — is closer to the input,
+    and whenever another pattern is equally close the chosen pattern has an even mantissa. -/
+theorem narrow_rne (x : Nat) (hx : x < 2 ^ 64) (hfin : x / 4503599627370496 % 2048 ≠ 2047) :
+    ∃ neg a, val64 x = .finite neg a ∧
+      (ovf32 ≤ a → val32 (f64ToF32 x) = .inf neg) ∧
+      (a < ovf32 → ∃ b, val32 (f64ToF32 x) = .finite neg b ∧
+        ∀ y, y < 2 ^ 32 → ∀ n' b', val32 y = .finite n' b' →
+          fdist neg b neg a ≤ fdist n' b' neg a ∧
+          (fdist neg b neg a = fdist n' b' neg a → y ≠ f64ToF32 x → f64ToF32 x % 2 = 0)) := by
+  have hx' : x < 18446744073709551616 := by simpa using hx
+  have hsplit : x = (x / 9223372036854775808) * 9223372036854775808
+      + (x / 4503599627370496 % 2048) * 4503599627370496 + x % 4503599627370496 := by omega
+  have := narrow_rne_fields (x / 9223372036854775808) (x / 4503599627370496 % 2048) (x % 4503599627370496)
+    (by omega) (by omega) (by omega)
+  rw [← hsplit] at this
+  simpa using this
+
+/-- the result of narrowing is a binary32 pattern. -/
+theorem f64ToF32_lt (x : Nat) (hx : x < 2 ^ 64) (hfin : x / 4503599627370496 % 2048 ≠ 2047) : f64ToF32 x < 2 ^ 32 := by
+  have hx' : x < 18446744073709551616 := by simpa using hx
+  have hsplit : x = (x / 9223372036854775808) * 9223372036854775808
+      + (x / 4503599627370496 % 2048) * 4503599627370496 + x % 4503599627370496 := by omega
+  rw [hsplit, f64ToF32_rnd _ _ _ (by omega) (by omega) (by omega)]
+  have := (narrow_rne_mag (x / 4503599627370496 % 2048) (x % 4503599627370496) (by omega) (by omega)).1
+  omega
+
+/-- non-vacuity: both sides of the overflow threshold are inhabited (the largest finite double; 1 + 2^-52), and
+    the threshold itself (0x47EFFFFFF0000000, a tie between the largest finite float and 2^128) goes to +inf. -/
+example : (∃ a, val64 0x7FEFFFFFFFFFFFFF = .finite false a ∧ ovf32 ≤ a) ∧
+    (∃ a, val64 0x3FF0000000000001 = .finite false a ∧ a < ovf32) ∧
+    val64 0x47EFFFFFF0000000 = .finite false ovf32 ∧ f64ToF32 0x47EFFFFFF0000000 = 0x7F800000 ∧
+    f64ToF32 0x47EFFFFFEFFFFFFF = 0x7F7FFFFF := by
+  refine ⟨⟨_, rfl, ?_⟩, ⟨_, rfl, ?_⟩, ?_, ?_, ?_⟩ <;> decide +kernel
 
 end Minicbor.NarrowThm
